@@ -258,6 +258,14 @@ def effective_matrix(out_ops, W):
 
 
 # ----------------------------------------------------------------------------- one case
+def gname(op):
+    try:
+        from pennylane.decomposition.utils import to_name
+        return "'" + to_name(abstractify(op)) + "'"
+    except Exception:
+        return "<no-name>"
+
+
 def short(e):
     return f"{type(e).__name__}: {str(e)[:160]}"
 
@@ -349,7 +357,7 @@ def run_case(case):
                 cls = "warned-globalphase"
             elif not graph and any(("Operator " + nm + " ") in m for c, m in warns if "does not define a decomposition" in m):
                 cls = "warned-nodecomp"
-            elif graph and translate_op_alias(nm) in graph_unsolved:
+            elif graph and (translate_op_alias(nm) in graph_unsolved or gname(tgt) in graph_unsolved):
                 cls = "graph-warned-strict" if strict else "graph-warned-nonstrict"
             else:
                 cls = "silent"
@@ -396,7 +404,8 @@ def run_case(case):
 
     # ------------------------------------------------------------ (d) resource estimate vs emitted gates
     if err is None and graph and tr.solution is not None and not early:
-        rec["est"] = estimate_checks(tr, accf, maxexp)
+        # the estimate is in terms of the gate set: leaves accepted only by a user stopping condition are not comparable
+        rec["est"] = estimate_checks(tr, (lambda op: my_accept(op, names, None)), maxexp)
     return rec
 
 
@@ -539,8 +548,7 @@ def model_terms(case, ops, tr, names, stop, graph, nww, maxexp, strict, mode, cu
                     inner = []
                     for k in kids:
                         inner += emitted(k, names_)
-                    return [f"((Cond 0 {t[1:].split(', ', 1)[0]}), {t.split(', ', 1)[1]}" if False else t for t in inner] and \
-                           [wrap_cond(t) for t in inner]
+                    return [wrap_cond(t) for t in inner]
                 if n["direct"]:
                     out.append(f"({gop(n['op'], names_, codes)}, {gopt(n['nww'])})")
                 nm = sib_names([k["op"] for k in kids])
@@ -559,7 +567,7 @@ def model_terms(case, ops, tr, names, stop, graph, nww, maxexp, strict, mode, cu
     cfg = (f"(mkCfg {glist([gz(c) for c in sorted(acc)])} {glist([gz(c) for c in sorted(cacc)])} {glist(gtab)} "
            f"{glist([t for _, t in ltab])} {'true' if sol is not None else 'false'} {'true' if graph else 'false'} "
            f"{'true' if (mode != 'transform' and strict) else 'false'} {'true' if custom else 'false'} {gopt(maxexp)} {gopt(b0)} "
-           f"{'true' if mode == 'transform' else 'false'})")
+           f"{'true' if mode == 'transform' else 'false'} {glist([gz(c) for c in sorted({c for c, _ in seen})])})")
     rec["cov"]["branch"] = branch
     rec["cov"]["codes"] = len(codes.tab)
     return f"({cfg}, {glist(in_terms)}, {expected})"
@@ -589,7 +597,7 @@ for case, r in zip(req["cases"], runs):
     if r.get("status") != "ok" or not isinstance(r.get("sem"), dict) or r.get("Meff") is None or not case.get("exact", True):
         continue
     n = len(W)
-    cols = case.get("cols") or [0]
+    cols = sorted({int(x) % (2 ** n) for x in (case.get("cols") or [0])})
     try:
         circs = []
         for c in cols:
